@@ -11,6 +11,7 @@
  "functions": ["lib/ext2fs/gen_bitmap64.c:ext2fs_compare_generic_bmap"],
  "assumes": ["both bitmaps use the harness model backend (set semantics at one ghost cluster each; see gen64_common.h)",
              "both bitmaps have the same cluster_bits, enumerated over {0, 4}; geometry of both bitmaps, membership, neq fully symbolic",
+             "neq != 0 (the two call sites in bitmaps.c pass the nonzero codes EXT2_ET_NEQ_BLOCK_BITMAP / EXT2_ET_NEQ_INODE_BITMAP)",
              "legacy 32-bit magic excluded (dispatch to gen_bitmap.c)",
              "start <= end <= real_end, real_end < 2^62 >> cluster_bits for both bitmaps"],
  "backend": "kissat",
@@ -62,6 +63,7 @@ static int spec_cmp(errcode_t neq, ext2fs_generic_bitmap a, ext2fs_generic_bitma
 unsigned long long verif_old0, verif_old1;	/* ghost: membership of k in A / B on entry */
 errcode_t ext2fs_compare_generic_bmap(errcode_t neq, ext2fs_generic_bitmap gen_bm1, ext2fs_generic_bitmap gen_bm2)
 	REQUIRES(pre_cmp(gen_bm1, gen_bm2) && verif_old0 == verif_g0 && verif_old1 == verif_g1)
+	REQUIRES(neq != 0)	/* call sites (bitmaps.c) pass EXT2_ET_NEQ_BLOCK_BITMAP / EXT2_ET_NEQ_INODE_BITMAP */
 	ENSURES(spec_cmp(neq, gen_bm1, gen_bm2, RET, verif_old0, verif_old1))
 	ASSIGNS(GHOSTS);
 
@@ -81,6 +83,7 @@ void h_gen_cmp(void)
 {
 	ext2fs_generic_bitmap a = build_a(&MODEL_OPS);
 	ext2fs_generic_bitmap b;
+	ASSUME(IN.neq != 0);
 	ASSUME(!IS32M(IN.magic2));
 	ASSUME(IN.start2 <= IN.end2 && IN.end2 <= IN.real_end);
 	fill_bitmap(&BMB, IN.magic2, IN.start2, IN.end2, IN.real_end, &MODEL_OPS, &verif_g1);
